@@ -769,6 +769,15 @@ namespace ip {
 		if (!m_channel) return;
 		int remote = m_channel->remote_idx(m_bound_to);
 		p.hops = m_channel->hops[remote];
+
+		// the segment is known to be lost: it is no longer in flight. It is
+		// accounted for again when it is retransmitted
+		auto const it = m_outstanding_packet_sizes.find(p.seq_nr);
+		if (it != m_outstanding_packet_sizes.end())
+		{
+			m_bytes_in_flight -= it->second;
+			m_outstanding_packet_sizes.erase(it);
+		}
 		m_outgoing_packets.push_back(std::move(p));
 
 		const int packets_in_cwnd = m_cwnd / m_mss;
@@ -806,10 +815,13 @@ namespace ip {
 				assert(m_bytes_in_flight >= acked_bytes);
 				m_bytes_in_flight -= acked_bytes;
 
-				// potentially resend packets
-				while (!m_outgoing_packets.empty()
+				// potentially resend packets. Try each waiting packet at most
+				// once per ACK: a retransmission may be dropped again right away
+				// and come back to the end of this list
+				for (std::size_t n = m_outgoing_packets.size(); n > 0
+					&& !m_outgoing_packets.empty()
 					&& m_bytes_in_flight
-						+ int(m_outgoing_packets.front().buffer.size()) <= m_cwnd)
+						+ int(m_outgoing_packets.front().buffer.size()) <= m_cwnd; --n)
 				{
 					aux::packet pkt = std::move(m_outgoing_packets.front());
 					m_outgoing_packets.erase(m_outgoing_packets.begin());
